@@ -346,6 +346,9 @@ def check_C03(tier, seed, res, replay=None):
     rng.shuffle(pick)
     cli_cases = [{"id": c["id"], "cmd": rng.choice(["load-p", "load-s"]), "A": c["A"]} for c in pick[:8000 if tier == "thorough" else 1500]]
     cli_arm.judge(res, rd, "c03", cli_arm.ta_op_events(cli_cases, rd), "TraceTA.tla")
+    # Layer 2: both trimmers as work-list machines with their counters, every automaton of the bound, every pop order
+    model_with_mutants(res, "Trim.tla", "Trim4.cfg" if tier == "thorough" else "Trim.cfg",
+                       ["SizeCompare", "ArityDecrement", "EarlyExit"] if tier == "thorough" else [], "Trim")
 
 
 # ---------------------------------------------------------------------------------------- C04
